@@ -274,8 +274,15 @@ def gen_chain(rng):
     unit = [F(1), F(1), [F(1), F(1)], 1]
     for i in range(k):
         a, b = i, i + 1
-        kind = rng.choice(["imp", "imp", "rimp", "iff", "iff", "or"])
-        if kind == "imp":
+        kind = rng.choice(["imp", "imp", "rimp", "iff", "iff", "or", "xor", "xor"])
+        if kind == "xor":
+            # XOr(a, b) asserted TRUE: exactly one of the two; built as the library builds it (pairwise And, Not, Or, root)
+            conj = len(kb)
+            kb.append([2, [a, b], [F(1), F(1), [F(1), F(1)], 1], []])
+            kb.append([1, [conj], [F(1), F(1), [], 1], []])
+            kb.append([3, [a, b], [F(1), F(1), [F(1), F(1)], 1], []])
+            kb.append([6, [conj + 1, conj + 2], [F(1), F(1), [F(1), F(1)], 1], [conj]])
+        elif kind == "imp":
             kb.append([4, [a, b], list(unit), []])
         elif kind == "rimp":
             kb.append([4, [b, a], list(unit), []])
@@ -291,6 +298,10 @@ def gen_chain(rng):
             kb.append([5, [i1, i1 + 1], list(unit), []])
         roots.append(len(kb) - 1)
         data.append([len(kb) - 1, [F(1), F(1)]])
+    # observers: negations of atoms as extra roots without data (something further down the line has to hear about the atom)
+    for _o in range(rng.choice([0, 1, 2])):
+        kb.append([1, [rng.randrange(k + 1)], [F(1), F(1), [], 1], []])
+        roots.append(len(kb) - 1)
     rng.shuffle(roots)
     end = rng.choice([0, k])
     data.append([end, rng.choice([[F(1), F(1)], [F(0), F(0)]])])
